@@ -116,6 +116,8 @@ def _get_ranges(headervalue, content_length):
             if not stop:
                 stop = content_length - 1
             start, stop = list(map(int, (start, stop)))
+            # a last-byte-pos beyond the end means "up to the end"
+            stop = min(stop, content_length - 1)
             if start >= content_length:
                 # From rfc 2616 sec 14.16:
                 # "If the server receives a request (other than one
@@ -143,8 +145,10 @@ def _get_ranges(headervalue, content_length):
                 return None
             # Negative subscript (last N bytes)
             # Prevent duplicate ranges. See Issue #59
-            if (content_length - int(stop), content_length) not in result:
-                result.append((content_length - int(stop), content_length))
+            # (at most the whole entity)
+            start = max(content_length - int(stop), 0)
+            if (start, content_length) not in result:
+                result.append((start, content_length))
 
     # Can we satisfy the requested Range?
     # If we have an exceedingly high standard deviation
